@@ -39,6 +39,7 @@ pub struct RaceWorld {
     t: Tbl,
     watch: ManifestWatch,
     poisoned: Mutex<bool>,
+    lost_reply: LostReplyWatch,
 }
 
 impl DsRace {
@@ -87,7 +88,9 @@ impl Scenario for DsRace {
             t,
             watch: ManifestWatch::default(),
             poisoned: Mutex::new(false),
+            lost_reply: LostReplyWatch::default(),
         };
+        w.t.env.store.enable_log(true);
         w.watch.observe(&w.t.env.store);
         (w, actors)
     }
@@ -108,8 +111,18 @@ impl Scenario for DsRace {
         w.t.shape_hash()
     }
     async fn monitor(&self, w: &RaceWorld, p: &PointRec) -> Vec<Violation> {
+        let lost = w.lost_reply.observe(&w.t, p);
         if *w.poisoned.lock().unwrap() {
             return vec![];
+        }
+        if let Some(l) = lost {
+            *w.poisoned.lock().unwrap() = true;
+            return vec![Violation::new(
+                "lost-put-reply",
+                &format!("C02/ds/{}/lost-put-reply-handled-as-conflict", self.cfg.handler.tag()),
+                l,
+                json!({}),
+            )];
         }
         let mut out: Vec<Violation> = w
             .watch
